@@ -39,7 +39,8 @@ RULE = (
 ASSUMPTIONS = [
     "HA core is trusted: the model of StateMachine.async_set (str(value); identical state+attributes (Python ==) "
     "only moves last_reported; last_changed moves with the state string; last_updated with state or attributes) "
-    "is asserted on the external writes and a mismatch there is a harness error, not a violation",
+    "is asserted on the external writes too: there a timestamp-only mismatch is a harness error, a state/attribute "
+    "mismatch means the integration disturbed a write it did not make (C16.external_write)",
     "each script operation is atomic on the event loop (asserted per operation: pre-marker and mark in the same "
     "loop pass), so the order of marks is the linearisation; what is explored is interleaving of whole operations",
     "a non-None value reaches HA as str(value) ('all state variable values are coerced into strings')",
@@ -684,7 +685,13 @@ def oracle(w: C16World, scn: dict):  # noqa: C901  pylint: disable=too-many-bran
             else:
                 if model.pop(op["e"], None) is not None:
                     deleted.add(op["e"])
-            check_photo(step, f"external {op['kind']} {op['e']}", lambda *_a: (None, None))
+            def classify_ext(ent_, diff, exp, got, _op=op):
+                if not [f for f in diff if f not in ("lc", "lu", "lr")]:
+                    return (None, None)  # only the clock model disagrees: harness problem
+                return ("external_write", {"op": "external_" + _op["kind"], "fields": "+".join(diff),
+                                           "same_entity": ent_ == _op["e"]})
+
+            check_photo(step, f"external {op['kind']} {op['e']}", classify_ext)
             if last_actor not in (None, "ext"):
                 w.probe("ext_write_between_script_ops")
             prev = last_write.get(op["e"])
